@@ -272,7 +272,13 @@ func (propC18) Gen(r *Rng, run uint64, tier string) *Plan {
 	if exhaustive {
 		p.Tags["exhaustive_orders"] = fmt.Sprint(n)
 	}
-	if !cli && !raceMode() && r.Bool(0.03) {
+	pressureProb := 0.03
+	switch tpl.name {
+	case "regex_replace", "regexp", "regex", "not_regex", "label_filter_re", "line_format", "label_format_tpl", "pattern", "hello_one_space", "hello_two_spaces":
+		// queries that go through things a process might cache by text
+		pressureProb = 0.4
+	}
+	if !cli && !raceMode() && r.Bool(pressureProb) {
 		// hundreds or thousands of other queries ran in this process first
 		p.Tags["cache_pressure"] = fmt.Sprint([]int{140, 140, 300, 300, 1100, 4200}[r.Intn(6)])
 	}
@@ -321,8 +327,8 @@ func (propC18) HistorySample(p *Plan, i int64) bool {
 // and templates over an empty inventory: whatever the process caches by text is
 // driven past its capacity before the plan's own query runs.
 func c18Pressure(t *testing.T, p *Plan, n int, st *Stats) {
-	for i := 0; i < n; i++ {
-		k := fmt.Sprintf("%d_%d", p.Run%1000, i)
+	for i := 0; i < 5*n; i++ {
+		k := fmt.Sprintf("%d_%d", p.Run%1000, i/5)
 		var q string
 		switch i % 5 {
 		case 0:
